@@ -18,6 +18,10 @@ fn cfgs() -> Vec<Entry> {
     c!(v, true,"align",A32D,StackN<2, 64>,dyn Cloneable);
     c!(v, true,"align",Q16D,StackN<2, 32>,dyn TNone);
     c!(v, true,"align",Q16D,TrackFixed<2>,dyn Cloneable);
+    #[cfg(feature = "alloc")] { c!(v, true,"plain",u64,Heap,dyn Cloneable); }
+    #[cfg(feature = "alloc")] { c!(v, true,"plain",i64,Heap,dyn TNone); }
+    #[cfg(feature = "alloc")] { c!(v, true,"plain",f64,Heap,dyn Cloneable); }
+    c!(v, true,"plain",[u8; 8],Track,dyn Cloneable);
     v
 }
 fn main() { anyvec_mc::main_with(cfgs) }
